@@ -191,6 +191,9 @@ pub enum WWrap {
     /// CountBitWriter<_, _, true> (the variant that also prints every operation); always over an owned
     /// growable vector, whatever `backend` says
     CountPrint,
+    /// CountBitWriter created in mid-stream: the three bits 0b101 are written on the bare writer before it is
+    /// wrapped (they are part of the stream but not of the wrapper's count)
+    CountMid,
 }
 
 #[derive(Clone, Copy, PartialEq, Eq, Hash, Debug, Serialize, Deserialize, PartialOrd, Ord)]
@@ -314,6 +317,7 @@ impl WCfg {
             WWrap::Count => "/count",
             WWrap::Dbg => "/dbg",
             WWrap::CountPrint => "/countprint",
+            WWrap::CountMid => "/countmid",
         })
     }
 }
